@@ -71,12 +71,20 @@ func (supercard) Generate(r *rand.Rand, o Opts) *Statement {
 			bel, gut, e = blank, amt.Fixed(), amt
 			st.feature("credit")
 		}
-		fb.line(csvLine(';', konto, karte, owner, dmy(day, "."), csvField(text, ';', false), csvField(branche, ';', false),
-			betrag.Fixed(), origCur, kurs, cur, bel, gut, dmy(day+cal.Day(1+r.Intn(3)), ".")))
-		st.Txns = append(st.Txns, Txn{Date: day, Import: eff(cur, e), Row: i, Note: "purchase"})
-		st.RowNotes = append(st.RowNotes, fmt.Sprintf("%s %s %s", day, e.Fixed(), cur))
+		line := csvLine(';', konto, karte, owner, dmy(day, "."), csvField(text, ';', false), csvField(branche, ';', false),
+			betrag.Fixed(), origCur, kurs, cur, bel, gut, dmy(day+cal.Day(1+r.Intn(3)), "."))
+		copies := 1
+		if r.Intn(12) == 0 {
+			copies = 2 // the same purchase twice: two rows, two transactions
+			st.feature("duplicate-row")
+		}
+		for k := 0; k < copies; k++ {
+			fb.line(line)
+			st.Txns = append(st.Txns, Txn{Date: day, Import: eff(cur, e), Row: len(st.Txns), Note: "purchase"})
+			st.RowNotes = append(st.RowNotes, fmt.Sprintf("%s %s %s", day, e.Fixed(), cur))
+		}
 	}
-	st.BookingRows = n
+	st.BookingRows = len(st.Txns)
 	s := fb.String()
 	if strings.ContainsRune(s, '€') {
 		panic("stmt: supercard text outside ISO-8859-1")
